@@ -58,7 +58,7 @@ def run(ctx, res):
     res.require_min("R-LIN", 15)
     # the inductive cursor invariant, laps included (channelinduct.py)
     from ..channelinduct import rule_induct
-    res.guard(rule_induct, prog, res)
+    res.guard(rule_induct, prog, res, with_mapped=True)
     res.require_min("R-INDUCT", 12)
     res.require_min("R-UNMAPPED-PRE", 2)
     res.require_min("R-STOP-SEQ", 5)
